@@ -226,7 +226,11 @@ Classified classify(const PlanView &v, bool needWritten) {
     if (m.last.maxAddr >= HW) {
       // The exit stub stores to and reads back word 200001 (sp+2 with the initial sp of 199999): C06
       // and C13 cover such binaries explicitly.  Anything else above hexsim's array is outside.
-      if (m.last.maxAddr <= HW + 2) c.exitStubEdge = true; else { c.why = "access_above_hexsim_memory"; return c; }
+      // Only the stub itself ("STAI 2; LDAC 0; OPR SVC" and the EXIT that reads the slot back): any other
+      // access up there corrupts hexsim's own object and what follows is undefined.
+      bool stubStore = m.last.wrote && !m.last.syscall && (m.pc + 1) < RTLW * 4 && m.byteAt(m.pc) == 0x30 && m.byteAt(m.pc + 1) == 0xD3;
+      bool stubExit = m.last.exited && c.exitStubEdge;
+      if (m.last.maxAddr <= HW + 2 && (stubStore || stubExit)) c.exitStubEdge = true; else { c.why = "access_above_hexsim_memory"; return c; }
     }
     if (m.last.syscall) c.syscalls++;
     if (m.last.exited) {
